@@ -296,6 +296,12 @@ func BvBin(op string, a, b *Term) *Term {
 		panic(fmt.Sprintf("BvBin %s sort mismatch %s vs %s: %s , %s", op, a.sort.s, b.sort.s, a, b))
 	}
 	w := a.sort.bv
+	if op == "bvadd" {
+		return mkAdd(w, a, b)
+	}
+	if op == "bvsub" && b.isConst() {
+		return mkAdd(w, a, mkBVbig(new(big.Int).Neg(b.c), w))
+	}
 	if a.isConst() && b.isConst() {
 		x, y := a.c, b.c
 		r := new(big.Int)
@@ -395,14 +401,46 @@ nofold:
 			return a
 		}
 	}
-	// (x + c1) + c2 -> x + (c1+c2)
-	if op == "bvadd" && b.isConst() && a.op == "bvadd" && a.args[1].isConst() {
-		return BvBin("bvadd", a.args[0], BvBin("bvadd", a.args[1], b))
-	}
 	if op == "bvsub" && a == b {
 		return mkBV(0, w)
 	}
 	return mkApp(op, a.sort, a, b)
+}
+
+// mkAdd builds an AC-normalised n-ary sum: summands flattened, constants folded (kept last),
+// non-constant summands ordered by term id.
+func mkAdd(w int, xs ...*Term) *Term {
+	var args []*Term
+	c := new(big.Int)
+	var add func(t *Term)
+	add = func(t *Term) {
+		if t.isConst() {
+			c.Add(c, t.c)
+			return
+		}
+		if t.op == "bvadd" {
+			for _, a := range t.args {
+				add(a)
+			}
+			return
+		}
+		args = append(args, t)
+	}
+	for _, x := range xs {
+		add(x)
+	}
+	c.And(c, mask(w))
+	sort.SliceStable(args, func(i, j int) bool { return args[i].id < args[j].id })
+	if c.Sign() != 0 {
+		args = append(args, mkBVbig(c, w))
+	}
+	if len(args) == 0 {
+		return mkBV(0, w)
+	}
+	if len(args) == 1 {
+		return args[0]
+	}
+	return mkApp("bvadd", BV(w), args...)
 }
 
 func BvNeg(a *Term) *Term { return BvBin("bvsub", mkBV(0, a.sort.bv), a) }
@@ -550,11 +588,18 @@ func distinctOffsets(i, j *Term) bool {
 }
 
 func splitOff(t *Term) (*Term, *big.Int) {
-	if t.op == "bvadd" && t.args[1].isConst() {
-		return t.args[0], t.args[1].c
+	if t.op == "bvadd" {
+		last := t.args[len(t.args)-1]
+		if last.isConst() {
+			rest := t.args[:len(t.args)-1]
+			if len(rest) == 1 {
+				return rest[0], last.c
+			}
+			return mkApp("bvadd", t.sort, rest...), last.c
+		}
 	}
-	if t.op == "bvadd" && t.args[0].isConst() {
-		return t.args[1], t.args[0].c
+	if t.isConst() {
+		return nil, t.c
 	}
 	return t, big.NewInt(0)
 }
@@ -731,6 +776,9 @@ func rebuild(t *Term, na []*Term) *Term {
 	case "exists":
 		return Exists(t.bvars, na[0])
 	}
+	if t.op == "bvadd" {
+		return mkAdd(t.sort.bv, na...)
+	}
 	if strings.HasPrefix(t.op, "bv") && len(na) == 2 {
 		return BvBin(t.op, na[0], na[1])
 	}
@@ -819,6 +867,19 @@ func printTerm(sb *strings.Builder, t *Term, named map[int]string) {
 		printTerm(sb, t.args[0], named)
 		sb.WriteByte(')')
 	default:
+		if t.op == "bvadd" && len(t.args) > 2 {
+			// left-nested binary additions
+			for i := 1; i < len(t.args); i++ {
+				sb.WriteString("(bvadd ")
+			}
+			printTerm(sb, t.args[0], named)
+			for _, a := range t.args[1:] {
+				sb.WriteByte(' ')
+				printTerm(sb, a, named)
+				sb.WriteByte(')')
+			}
+			return
+		}
 		sb.WriteString("(" + t.op)
 		for _, a := range t.args {
 			sb.WriteByte(' ')
